@@ -112,6 +112,9 @@ func (Fam) Gen(r *rand.Rand, i int) string {
 	if r.Intn(12) == 0 {
 		return genDecCoinsOp(r)
 	}
+	if r.Intn(30) == 0 {
+		return genConvertOp(r)
+	}
 	if r.Intn(6) == 0 {
 		k := rawKinds[r.Intn(len(rawKinds))]
 		bits := 255
@@ -646,6 +649,9 @@ func (Fam) Exec(op string) (string, []common.Failure) {
 	}
 	if strings.HasPrefix(k, "mon.deccoins.") {
 		return execDecCoins(op)
+	}
+	if k == "mon.convert" {
+		return execConvert(op)
 	}
 	if strings.HasSuffix(k, ".cmp") {
 		return execCmp(op)
